@@ -9,9 +9,9 @@ MODULES = ['TlsModel.Props.C10']
 def sweep(ctx):
     rng = ctx.rng
     out = []
-    lens = [0, 1, 2, 13, 255, 16639, 16640, 16641, 65535]
+    lens = [0, 1, 2, 13, 255, 256, 767, 768, 1023, 1024, 4096, 16383, 16384, 16639, 16640, 16641, 65535]
     for t in range(256):
-        for ln in (lens if ctx.thorough or t in (20, 21, 22, 23, 24) else rng.sample(lens, 2)):
+        for ln in (lens if ctx.thorough or t in (20, 21, 22, 23, 24) else rng.sample(lens, 4)):
             v = rng.choice((0xfeff, 0xfefd, rng.randrange(65536)))
             epoch, seq = rng.choice((0, 1, 65535, rng.randrange(65536))), rng.choice((0, 1, 2 ** 48 - 1, rng.randrange(2 ** 48)))
             body = rng.randbytes(min(ln, 16645))
@@ -22,6 +22,16 @@ def sweep(ctx):
                 cuts |= set(range(avail + 1))
             for p in sorted(c for c in cuts if 0 <= c <= avail):
                 out.append((t, v, epoch, seq, ln, p, buf[:p]))
+    # long datagrams: a complete record followed by a tail that carries the input length across 2^16 / 2^17
+    for ln in (1, 2, 300, 16640):
+        for r in (65535, 65536, 65536 + ln - 1, 65536 + ln, 131072 + ln - 1):
+            t = rng.choice((20, 21))
+            body = b'\x01' * ln if t == 20 else b'\x01\x00' * (ln // 2)
+            if len(body) != ln:
+                continue
+            v, epoch, seq = rng.choice((0xfeff, 0xfefd)), rng.randrange(65536), rng.randrange(2 ** 48)
+            buf = bytes([t]) + v.to_bytes(2, 'big') + epoch.to_bytes(2, 'big') + seq.to_bytes(6, 'big') + ln.to_bytes(2, 'big') + body + rng.randbytes(r - ln)
+            out.append((t, v, epoch, seq, ln, len(buf), buf))
     return out
 
 
@@ -50,6 +60,8 @@ def run(ctx):
         else:
             if ra.startswith('incomplete'):
                 bad = 'a complete datagram must not answer Incomplete'
+            elif t in (20, 21) and ln > 0 and len(buf) > 60000 and not ra.startswith('ok '):
+                bad = 'a well-formed record followed by further bytes must be decoded'
             elif ra.startswith('ok '):
                 if int(ra.split(' ')[1]) != p - 13 - ln or not ra.split(' ', 2)[2].startswith('(DPlain (DHdr %d %d %d %d %d) ' % (t, v, epoch, seq, ln)):
                     bad = 'must consume exactly 13+%d bytes and return the header verbatim' % ln
